@@ -905,10 +905,8 @@ class VectorExpression:
         return _vector_binary_op(self, other, "-")
 
     def __rsub__(self, other: float | int) -> VectorExpression:
-        # other - self
-        return VectorExpression(
-            [BinaryOp(_ensure_expr(other), expr, "-") for expr in self._expressions]
-        )
+        # other - self (element-wise for arrays, broadcast for scalars)
+        return _vector_binary_op(self, other, "-", reverse=True)
 
     def __mul__(self, other: float | int) -> VectorExpression:
         """Scalar multiplication."""
@@ -922,10 +920,8 @@ class VectorExpression:
         return _vector_binary_op(self, other, "/")
 
     def __rtruediv__(self, other: float | int) -> VectorExpression:
-        """Right scalar division."""
-        return VectorExpression(
-            [BinaryOp(_ensure_expr(other), expr, "/") for expr in self._expressions]
-        )
+        """Right division: other / self."""
+        return _vector_binary_op(self, other, "/", reverse=True)
 
     def __neg__(self) -> VectorExpression:
         """Negate all elements."""
@@ -1239,10 +1235,8 @@ class VectorVariable:
         return _vector_binary_op(self, other, "-")
 
     def __rsub__(self, other: float | int) -> VectorExpression:
-        """Right subtraction: scalar - vector."""
-        return VectorExpression(
-            [BinaryOp(_ensure_expr(other), v, "-") for v in self._variables]
-        )
+        """Right subtraction: scalar - vector or array - vector (element-wise)."""
+        return _vector_binary_op(self, other, "-", reverse=True)
 
     def __mul__(self, other: float | int) -> VectorExpression:
         """Scalar multiplication: x * 2."""
@@ -1257,10 +1251,8 @@ class VectorVariable:
         return _vector_binary_op(self, other, "/")
 
     def __rtruediv__(self, other: float | int) -> VectorExpression:
-        """Right scalar division: 1 / x."""
-        return VectorExpression(
-            [BinaryOp(_ensure_expr(other), v, "/") for v in self._variables]
-        )
+        """Right division: 1 / x or array / x (element-wise)."""
+        return _vector_binary_op(self, other, "/", reverse=True)
 
     def __neg__(self) -> VectorExpression:
         """Negate all elements: -x."""
@@ -1615,6 +1607,7 @@ def _vector_binary_op(
     left: VectorVariable | VectorExpression,
     right: VectorVariable | VectorExpression | float | int,
     op: Literal["+", "-", "*", "/", "**"],
+    reverse: bool = False,
 ) -> VectorExpression:
     """Helper for element-wise binary operations on vectors.
 
@@ -1622,6 +1615,8 @@ def _vector_binary_op(
         left: Left operand (VectorVariable or VectorExpression).
         right: Right operand (vector or scalar).
         op: Operation to perform.
+        reverse: If True, build ``right op left`` element-wise (reflected
+            operators such as ``array - vector``).
 
     Returns:
         VectorExpression with element-wise results.
@@ -1688,10 +1683,16 @@ def _vector_binary_op(
         )
 
     # Create element-wise operations
-    result_exprs = [
-        BinaryOp(left_expr, right_expr, op)
-        for left_expr, right_expr in zip(left_exprs, right_exprs)
-    ]
+    if reverse:
+        result_exprs = [
+            BinaryOp(right_expr, left_expr, op)
+            for left_expr, right_expr in zip(left_exprs, right_exprs)
+        ]
+    else:
+        result_exprs = [
+            BinaryOp(left_expr, right_expr, op)
+            for left_expr, right_expr in zip(left_exprs, right_exprs)
+        ]
 
     return VectorExpression(result_exprs)
 
